@@ -244,8 +244,17 @@ structure ReorderOut where
   fuelOut : Bool
 deriving Repr, Inhabited
 
+/-- every node index that occurs is below this (providers, and the second components of the strong pairs) -/
+def keyBound (g : RGraph) (n : Nat) : Nat := (g.strong.map (·.2)).foldl max n + 1
+
+/-- fuel for `topo.run`: more than the number of iterations it can make (proved in
+    `NjectProofs/ReorderTerm.lean`: every iteration removes a queue entry, and a node's first
+    processing adds at most one entry per member of its `before` set and per output / received type).
+    The loop stops by itself when the queues are empty, so a generous bound costs nothing. -/
 def reorderFuel (g : RGraph) (funcs : List CP) : Nat :=
-  g.strong.length + g.weak.length + (funcs.foldl (fun a f => a + f.out.length + f.recv.length) 0) * 2 + funcs.length + 2
+  let o := (funcs.map (·.out.length)).sum
+  let r := (funcs.map (·.recv.length)).sum
+  keyBound g funcs.length * (g.strong.length + o + r + 1) + o + funcs.length + 2
 
 def topoStatic (funcs : List CP) (g : RGraph) : TopoS :=
   let ns := buildNodes g
